@@ -54,6 +54,25 @@ fn main() {
                 }
             }
         }
+        "note-fuzz" => {
+            // record what the libFuzzer campaign of the thorough tier did, in the evidence file
+            let id = args.get(2).cloned().unwrap_or_else(|| usage());
+            let path = tcss_verif::engine::verif_root().join("evidence").join(format!("{id}.json"));
+            let mut ev: serde_json::Value = std::fs::read_to_string(&path).ok().and_then(|t| serde_json::from_str(&t).ok()).unwrap_or(serde_json::json!({}));
+            let mut f = serde_json::Map::new();
+            for kv in &args[3..] {
+                if let Some((k, v)) = kv.split_once('=') {
+                    f.insert(k.to_string(), v.parse::<u64>().map(serde_json::Value::from).unwrap_or(serde_json::Value::from(v)));
+                }
+            }
+            if let Some(v) = f.get("violations").and_then(|v| v.as_u64()) {
+                let old = ev["violations"].as_u64().unwrap_or(0);
+                ev["violations"] = serde_json::Value::from(old + v);
+            }
+            ev["coverage"]["fuzz"] = serde_json::Value::Object(f);
+            let _ = std::fs::write(&path, serde_json::to_string_pretty(&ev).unwrap());
+            0
+        }
         "list" => {
             for p in props::ALL {
                 println!("{p}");
